@@ -400,20 +400,27 @@ def compile_theorems_directly(ctx, files, prop):
     lock = open(os.path.join(coq, '.lock'), 'w'); fcntl.flock(lock, fcntl.LOCK_EX)
     try:
         newest = 0.0
+        failed = None
         for f in files:
             v = os.path.join(coq, f); vo = v + 'o'
             newest = max(newest, os.path.getmtime(v))
+            if failed and not f.startswith('Extract/'): continue
             if not os.path.exists(vo) or os.path.getmtime(vo) < newest:
                 cmd = ['coqc', '-Q', coq, 'Flatcc', v]
                 ctx.checker_cmds.append('coqc -Q coq Flatcc coq/' + f)
                 rc, out = lib.sh(cmd, timeout=1500, cwd=coq)
                 if rc != 0:
+                    if os.path.exists(vo): os.remove(vo)
                     m = re.findall(r'File "([^"]+)", line (\d+)', out)
-                    ctx.broken = {'files': sorted(set('%s:%s' % x for x in m)), 'log_tail': out[-3000:]}
-                    return False
+                    failed = {'files': sorted(set('%s:%s' % x for x in m)), 'log_tail': out[-3000:]}
+                    continue
                 newest = max(newest, os.path.getmtime(vo))
             else:
                 newest = max(newest, os.path.getmtime(vo))
+        if failed:
+            ctx.obligations += len(ctx.theorem_names(prop + '.v'))
+            ctx.broken = failed
+            return False
     finally:
         fcntl.flock(lock, fcntl.LOCK_UN); lock.close()
     names = ctx.theorem_names(prop + '.v')
